@@ -1409,6 +1409,9 @@ def describe(case, o, entry='Message.unpack + forcing every lazy part', **kw):
     }
     if case.get('n') is not None:
         d['repeat_count'] = case['n']
+    for k in ('prefix_lengths', 'family', 'nexthop'):
+        if case.get(k) is not None:
+            d[k] = case[k]
     d.update(kw)
     return d
 
@@ -2100,6 +2103,82 @@ def gen_families(rng, tier):
                                     family=[afi, safi], nexthop=what))
             x = update([attr(0x80, 15, struct.pack('!HB', afi, safi) + nlri)])
             cases.append(mk(2, x.b, ctxn, 'valid', f'mp-unreach-{name.replace(" ", "-")}', x.marks, family=[afi, safi]))
+    cases += gen_rtc_prefixes(rng, tier)
+    cases += gen_addpath_default_routes(rng, tier)
+    return cases
+
+
+def rtc_nlri(bits):
+    """RFC 4684 4: prefix length in bits (0 = default, else 32..96), then ceil(bits / 8) octets of origin AS + route target,
+    the unused low bits of the last octet zero"""
+    full = struct.pack('!L', 65000) + bytes([0x00, 0x02]) + struct.pack('!HL', 65000, 0x00010203)
+    if bits == 0:
+        return b'\x00'
+    n = (bits + 7) // 8
+    val = bytearray(full[:n])
+    if bits % 8:
+        val[-1] &= (0xFF << (8 - bits % 8)) & 0xFF
+    return bytes([bits]) + bytes(val)
+
+
+def gen_rtc_prefixes(rng, tier):
+    """Route Target membership NLRI of every legal prefix length (RFC 4684 4): alone, several, and each one last in the field"""
+    cases = []
+    v4 = bytes([192, 0, 2, 1])
+    lengths = [0, 32, 33, 40, 48, 63, 64, 72, 95, 96]
+    for ctxn in ('as4-all', 'ext-all'):
+        c = ctx(ctxn)
+        if (1, 132) not in {(int(a), int(s)) for a, s in c.neg.families}:
+            continue
+        seqs = [[b] for b in lengths] + [[96, b] for b in lengths] + [[b, 96] for b in lengths if b != 96] + [lengths, lengths[::-1]]
+        for seq in seqs:
+            nl = b''.join(rtc_nlri(b) for b in seq)
+            tag = '-'.join(str(b) for b in seq) if len(seq) <= 2 else ('all-lengths' if seq[0] == 0 else 'all-lengths-reversed')
+            x = update(mandatory(rng, c, nh=False) + [attr(0x80, 14, struct.pack('!HBB', 1, 132, 4) + v4 + b'\x00' + nl)])
+            partial = 'partial-prefix' if any(0 < b < 96 for b in seq) else 'prefix'
+            cases.append(mk(2, x.b, ctxn, 'valid', f'mp-reach-rtc-{partial}', x.marks, family=[1, 132], prefix_lengths=tag))
+            x = update([attr(0x80, 15, struct.pack('!HB', 1, 132) + nl)])
+            cases.append(mk(2, x.b, ctxn, 'valid', f'mp-unreach-rtc-{partial}', x.marks, family=[1, 132], prefix_lengths=tag))
+    return cases
+
+
+def gen_addpath_default_routes(rng, tier):
+    """ADD-PATH sessions (RFC 7911 3: a four octet path identifier in front of every NLRI): the default route, alone, last
+    and first, in the withdrawn routes, the NLRI field, MP_REACH_NLRI and MP_UNREACH_NLRI of every prefix family"""
+    cases = []
+    v4 = bytes([192, 0, 2, 1])
+    v6 = bytes([0x20, 1, 0x0d, 0xb8] + [0] * 11 + [1])
+    pid = lambda: struct.pack('!L', rng.choice([0, 1, 7, 0xFFFFFFFF]))  # noqa: E731
+    for ctxn in ('ap-all', 'ext-ap-as2', 'as4-all'):
+        c = ctx(ctxn)
+        from exabgp.protocol.family import AFI, SAFI  # noqa: F401
+
+        fams = {(int(a), int(s)) for a, s in c.neg.families}
+        ap = {(int(a), int(s)) for a, s in c.neg.families if c.neg.required(a, s)}
+        tagc = 'addpath' if c.addpath else 'no-addpath'
+        p = (lambda afi: pid()) if c.addpath else (lambda afi: b'')
+        d4 = lambda: p(1) + b'\x00'  # noqa: E731  0.0.0.0/0
+        r4 = lambda: p(1) + bytes([24, 10, rng.getrandbits(8), rng.getrandbits(8)])  # noqa: E731
+        for name, seq in (('alone', [d4]), ('last', [r4, d4]), ('first', [d4, r4]), ('twice', [d4, d4])):
+            body = b''.join(f() for f in seq)
+            x = update([], wd=[B().add(body)])
+            cases.append(mk(2, x.b, ctxn, 'valid', f'default-route-{name}-in-withdrawn-{tagc}', model=True))
+            x = update(mandatory(rng, c), nlri=[B().add(b''.join(f() for f in seq))])
+            cases.append(mk(2, x.b, ctxn, 'valid', f'default-route-{name}-in-nlri-{tagc}'))
+        for afi, safi in ((1, 1), (1, 2), (2, 1), (2, 2)):
+            if (afi, safi) not in fams:
+                continue
+            q = pid if (afi, safi) in ap else (lambda: b'')
+            tagf = 'addpath' if (afi, safi) in ap else 'no-addpath'
+            dflt = lambda: q() + b'\x00'  # noqa: E731
+            other = (lambda: q() + bytes([24, 10, 1, rng.getrandbits(8)])) if afi == 1 else (lambda: q() + bytes([32, 0x20, 1, 0x0d, rng.getrandbits(8)]))
+            nh = v4 if afi == 1 else v6
+            for name, seq in (('alone', [dflt]), ('last', [other, dflt]), ('first', [dflt, other])):
+                nl = b''.join(f() for f in seq)
+                x = update(mandatory(rng, c, nh=False) + [attr(0x80, 14, struct.pack('!HBB', afi, safi, len(nh)) + nh + b'\x00' + nl)])
+                cases.append(mk(2, x.b, ctxn, 'valid', f'default-route-{name}-in-mp-reach-{afi}-{safi}-{tagf}', x.marks))
+                x = update([attr(0x80, 15, struct.pack('!HB', afi, safi) + b''.join(f() for f in seq))])
+                cases.append(mk(2, x.b, ctxn, 'valid', f'default-route-{name}-in-mp-unreach-{afi}-{safi}-{tagf}', x.marks))
     return cases
 
 
@@ -2186,6 +2265,31 @@ def work_shapes(c):
     for code, el in same.items():
         flag = small_large_values(c)[code][0]
         shapes[f'attribute-{code}-same-element-repeated'] = lambda size, flag=flag, code=code, el=el: wrap(base + attr_tlv(flag, code, el * max(1, (size - 30) // len(el))))
+    # a treat-as-withdraw malformation (ORIGIN 9, MED of three octets) in front of thousands of routes: RFC 7606 turns every
+    # announced route into a withdrawn one, which must cost one step per route
+    bad = {'origin': bytes([0x40, 1, 1, 9, 0x40, 2, 0, 0x40, 3, 4, 10, 0, 0, 1]), 'med': base + bytes([0x80, 4, 3, 0, 0, 1])}
+    v6nh = bytes([0x20, 1, 0x0d, 0xb8] + [0] * 11 + [1])
+    for bname, battrs in bad.items():
+        def taw_nlri(size, battrs=battrs):
+            n = max(1, (size - len(battrs) - 4) // 4)
+            routes = b''.join(bytes([24, 10, i >> 8 & 0xFF, i & 0xFF]) for i in range(n))
+            return 2, struct.pack('!H', 0) + struct.pack('!H', len(battrs)) + battrs + routes
+
+        def taw_both(size, battrs=battrs):
+            n = max(1, (size - len(battrs) - 4) // 8)
+            wd = b''.join(bytes([24, 11, i >> 8 & 0xFF, i & 0xFF]) for i in range(n))
+            routes = b''.join(bytes([24, 10, i >> 8 & 0xFF, i & 0xFF]) for i in range(n))
+            return 2, struct.pack('!H', len(wd)) + wd + struct.pack('!H', len(battrs)) + battrs + routes
+
+        def taw_mp(size, battrs=battrs):
+            n = max(1, (size - len(battrs) - 40) // 7)
+            routes = b''.join(bytes([48, 0x20, 1, 0x0d, 0xb8, i >> 8 & 0xFF, i & 0xFF]) for i in range(n))
+            mp = attr_tlv(0x80, 14, struct.pack('!HBB', 2, 1, 16) + v6nh + b'\x00' + routes)
+            return 2, struct.pack('!H', 0) + struct.pack('!H', len(battrs) + len(mp)) + battrs + mp
+
+        shapes[f'treat-as-withdraw-{bname}-many-announced-routes'] = taw_nlri
+        shapes[f'treat-as-withdraw-{bname}-many-announced-and-withdrawn-routes'] = taw_both
+        shapes[f'treat-as-withdraw-{bname}-many-mp-reach-routes'] = taw_mp
     # different attribute codes interleaved, each repeated
     mix = [attr_tlv(f, k, s) for k, (f, s, _) in small_large_values(c).items() if k not in (1, 2, 3, 14, 15)]
     shapes['attributes-all-codes-interleaved'] = lambda size: wrap(base + b''.join(mix) * max(1, (size - 30) // len(b''.join(mix))))
